@@ -2,6 +2,7 @@ CONSTANTS
   Model = "geo"
   MaxSteps = 0
   Hist = FALSE
+  AllowDie = FALSE
   TransOnlyAsserted = FALSE
   TransOutOnly = FALSE
   NoInverseOfInferred = FALSE
